@@ -317,8 +317,39 @@ RULE = ("generating sets of su(2^n) (random strings until the closure is all 4^n
         "termination, no exception, distinctness, size in [2n+1, |input|] and closure equality (Lean-verified closure); the model explores "
         "EVERY random choice for n<=3 (thorough 4) and must find no stuck retry loop, no IndexError and only property-satisfying results")
 
+# ---- recorded finding: strings recorded as "dependent" that are NOT removable.  A failure is the recorded one only if (a) it is of
+# the kind "fewer than 2n+1 strings / smaller closure / independents generate less", (b) the implementation's dependents for this
+# input are exactly those of the exact model of the classifier (Model/Morph.lean: the reduction as written does this), and (c)
+# the members outside that list really generate less than the input.  Any other failure of C20 stays a VIOLATION.
+KNOWN_SIG = "dependents-not-removable:reproduced-by-Model.Morph.classify"
+_KM = {}
+def known_match(stream, line, why):
+    t = line.split(" ")
+    if t[0] not in ("optimise", "indep", "optedit") or not why:
+        return None
+    if not any(x in why for x in ("a needed generator was recorded as dependent", "strings, expected between", "generates", "generate")):
+        return None
+    if t[1] in _KM:
+        return _KM[t[1]]
+    import impl_classify
+    gs = O.pad(lst(t[1]))
+    sig = None
+    try:
+        cl = G.line_of("classify", gs)
+        io = impl_classify.handle(cl); mo = impl_classify.strip_meta(run_model([cl])[0])
+        fi, fm = fields(io), fields(mo)
+        if not io.startswith("!") and fi.get("deps") == fm.get("deps") and fi.get("verts") == fm.get("verts"):
+            deps = set(lst(fi.get("deps", "-")))
+            rest = [g for g in gs if g not in deps]
+            if deps and O.closure_strs(rest) != O.closure_strs(gs):
+                sig = KNOWN_SIG
+    except Exception:
+        sig = None
+    _KM[t[1]] = sig
+    return sig
+
 def main(tier):
-    return standard_main(PID, tier, "other", THEOREMS, IMPORTS, build_streams, rule=RULE,
+    return standard_main(PID, tier, "other", THEOREMS, IMPORTS, build_streams, known_match=known_match, rule=RULE,
         assumptions=["termination for ALL inputs and seeds is not proved: decided per input by exhaustive exploration of the random choices in the model",
                      "that su(2^n) needs at least 2n+1 Pauli generators (hence no duplicates can appear) is a theorem of the literature, checked per input",
                      "float floor(0.706*pairs) equals the exact rational floor for every ng < 400 (3000 thorough), checked on the implementation"])
